@@ -30,6 +30,10 @@ KINDS["C19"] = {"failed-operation-changed-the-store", "stored-value"}
 # C14: selector rewrite of kind watches (the match bits come from the code's own selector closure)
 KINDS["C14"] = {"wrong-event", "unexpected-event", "bootstrap-contents"}
 
+# C03: "a resource is never removed while it holds a finalizer": a destroy that commits on a stored value with finalizers is a
+# branch that is not applicable; (judged on the dedicated finalizer-traffic driver)
+KINDS["C03"] = {"branch-not-applicable", "failed-operation-changed-the-store", "stored-value", "version-not-bumped-by-one"}
+
 QUICK_PKGS = ["./pkg/state/impl/inmem/", "./pkg/state/impl/namespaced/", "./pkg/state/", "./pkg/safe/"]
 THOROUGH_PKGS = QUICK_PKGS + ["./pkg/state/protobuf/...", "./pkg/state/impl/store/...", "./pkg/controller/runtime/...",
                               "./pkg/controller/generic/...", "./pkg/state/registry/...", "./pkg/state/owned/...", "./pkg/resource/..."]
